@@ -127,6 +127,23 @@ func init() {
 	add("c05-cover-root-not-filled", "C05.cover", ddec,
 		"\t\tif opts.FillGaps {\n\t\t\td.FillGaps(", "\t\tif opts.FillGaps && !opts.IsRoot {\n\t\t\td.FillGaps(", "filled")
 
+	// C05.padreader (borrowed C01 obligations on the readers Binary.toReader composes)
+	const zrs = "internal/bitiox/zeroreadatseeker.go"
+	add("c05-padreader-fill-partial-byte", "C05.padreader", zrs,
+		"rBytes := bitio.BitsByteCount(rBits)", "rBytes := rBits / 8", "ZeroReadAtSeeker.ReadBitsAt:fill")
+	add("c05-padreader-fill-from-one", "C05.padreader", zrs,
+		"for i := int64(0); i < rBytes; i++ {\n\t\tp[i] = 0", "for i := int64(1); i < rBytes; i++ {\n\t\tp[i] = 0", "ZeroReadAtSeeker.ReadBitsAt:fill")
+	add("c05-padreader-zero-count", "C05.padreader", zrs,
+		"rBits := min(nBits, lBits)", "rBits := min(nBits, lBits+8)", "ZeroReadAtSeeker.ReadBitsAt:count")
+	add("c05-padreader-zero-clone", "C05.padreader", zrs,
+		"return NewZeroAtSeeker(z.nBits), nil", "return NewZeroAtSeeker(z.nBits - z.pos), nil", "Zero")
+	add("c05-padreader-multi-rebase", "C05.padreader", "pkg/bitio/multireader.go",
+		"\t\tprevAtEnd = end\n", "\t\tprevAtEnd += end\n", "ReadBitsAt:rebase")
+	add("c05-padreader-multi-ends", "C05.padreader", "pkg/bitio/multireader.go",
+		"esSum += e", "esSum = e", "New:ends-sum")
+	add("c05-padreader-bytecount", "C05.padreader", "pkg/bitio/bitio.go",
+		"func BitsByteCount(nBits int64) int64 {\n\tn := nBits / 8\n\tif nBits%8 != 0 {", "func BitsByteCount(nBits int64) int64 {\n\tn := nBits / 8\n\tif nBits%8 == 0 {", "")
+
 	// C05.fmt
 	add("c05-fmt-md5-shared", "C05.fmt", iint,
 		"return func(br bitio.ReaderAtSeeker) (any, error) {\n\t\t\td := md5.New()", "d := md5.New()\n\t\treturn func(br bitio.ReaderAtSeeker) (any, error) {", "render:md5:sink")
